@@ -328,4 +328,19 @@ def inject_sessions(rnd, n):
         sc["target"]["inject"] = {str(k): st}
         sc["family"] = "logix-inject"
         out.append(sc)
+    # a status injected into each fragment of a fragmented write / read in turn (first, middle, last)
+    for j in range(max(4, n // 4)):
+        nel = rnd.choice([2500, 3000, 4100]) if j % 2 == 0 else rnd.choice([300, 400, 620])
+        pol = "LargeOK" if j % 2 == 0 else "LargeRefused"
+        big = [{"name": "FRG", "code": 0xC4, "dims": [nel]}]
+        sc = session(rnd, 500 + j, prefix="injf", n_calls=0, big=big, n_tags=1, policy=pol, caps=False)
+        wr = S.write_call([R([("FRG", [])], count=nel, value=[rnd.randint(-5, 5) for _ in range(nel)])])
+        rd = S.read_call([R([("FRG", [])], count=nel)])
+        sc["calls"] = [{"api": "open"}] + ([wr, rd] if j % 3 else [rd, wr]) + [{"api": "close"}]
+        S0 = 4000 if pol == "LargeOK" else 500
+        nfrag = -(-(4 * nel) // (S0 - 24))
+        k = rnd.randint(1, max(1, nfrag - 1)) if j % 4 != 3 else rnd.randint(nfrag, 2 * nfrag)      # mostly a non-final fragment of the first transfer
+        sc["target"]["inject"] = {str(k): rnd.choice([[4], [5], [0xFF, 0x2105], [0x13], [0x10, 0x2101]])}
+        sc["family"] = "logix-inject-fragment"
+        out.append(sc)
     return out
